@@ -742,6 +742,14 @@ def _worker(args):
             list(ctx._nontrivial), ctx.samples[:2])
 
 
+
+def r_scale(ctx, model):
+    from ..sites import no_absolute_tolerance
+    ctx.rule("R-scale: no absolute-tolerance comparison on pressures / loadings in the accessors, the interpolator or the converters")
+    no_absolute_tolerance(ctx, model, "C03", "R-scale", ("pygaps.core.pointisotherm.", "pygaps.core.modelisotherm.", "pygaps.core.baseisotherm.",
+                                                      "pygaps.utilities.isotherm_interpolator.", "pygaps.units.", "pygaps.utilities.pygaps_utilities."),
+                          "stored or queried pressures / loadings")
+
 def run(ctx: Ctx):
     model = load(ctx.root)
     ctx.assume("scipy interp1d interpolates its construction data; without bounds_error=False it raises outside the range")
@@ -753,6 +761,7 @@ def run(ctx: Ctx):
     r_interp(ctx, model)
     r_split(ctx, model)
     r_order(ctx, model)
+    r_scale(ctx, model)
     Engine(ctx.root)
     jobs = max(1, ctx.jobs)
     k = jobs if ctx.tier == "thorough" else min(jobs, 4)
